@@ -372,7 +372,7 @@ def read_idx(env, art, data):
     def use():
         st = DiskObjectStore(d)
         try:
-            ids, bad = L.observe_store(st)
+            ids, bad = L.observe_store(st, strict=True)
             return {"n": len(ids), "bad": len(bad), "misnamed": sum(1 for b in bad if b.endswith(":misnamed"))}
         finally:
             st.close()
@@ -490,7 +490,7 @@ def read_midx(env, art, data):
     def use():
         st = DiskObjectStore(d)
         try:
-            ids, bad = L.observe_store(st)
+            ids, bad = L.observe_store(st, strict=True)
             for h in ids:
                 st.contains_packed(h.encode())
             return {"n": len(ids), "bad": len(bad)}
